@@ -512,6 +512,884 @@ def stream_plaintext(ctx: Ctx) -> None:
     ctx.count("stream:plaintext", n)
 
 
+# ====================================================================== documents: generator
+
+FORMATS = ["epytext", "restructuredtext", "google", "numpy", "plaintext"]
+RST_FAMILY = ("restructuredtext", "google", "numpy")
+
+BASE = ["alpha", "beta", "Gamma", "delta", "foo", "bar", "baz", "Qux", "data", "value", "node", "tree", "left",
+        "right", "fast", "slow", "item", "word", "text", "thing", "result", "number", "x1", "y2", "k9"]
+UNIVERSAL = ["a<b", "x>y", "&amp;", "<tag>", "#1", "50%", "a/b", "a+b", "a=b", "~x", "$v", "\u00e9t\u00e9", "na\u00efve",
+             "\u03bbx", "\u65e5\u672c", "e.g.", "&", "x.y", "f()", "don't", "a,b"]
+SPECIAL = {
+    "epytext": ["*star*", "`tick`", "_under_", "a|b", "back\\slash", "x:", "a::b", "**kw", "|pipe|", "{curly}", "{}", "a{b}c"],
+    "restructuredtext": ["{curly}", "@sign", "C{x}", "x*y", "a_b", "{", "}", "E{lb}", "x:", "a::b"],
+    "google": ["{curly}", "@sign", "C{x}", "x*y", "a_b", "{", "}"],
+    "numpy": ["{curly}", "@sign", "C{x}", "x*y", "a_b", "{", "}"],
+    "plaintext": ["*star*", "`tick`", "{curly}", "@sign", "C{x}", "B{", "}", "::", "- ", ">>>", "<b>", "&lt;", "  two", "\ttab"],
+}
+SYMBOLS = [("alpha", "\u03b1"), ("<-", "\u2190"), ("->", "\u2192"), ("le", "\u2264"), ("Omega", "\u03a9"), ("infinity", "\u221e"), ("^", "\u2191")]
+XREFS = ["m.f", "m.K", "m.K.meth", "m.x"]
+URLS = ["http://example.org/a", "https://x.org/p?q=1"]
+SAFE_START = re.compile(r"^[A-Za-z][a-z]{2,}")
+
+BLOCK_LINES = ["x = 1", "if x < 2 and y > 3:", "    print('a & b')", "def g(x):", "    return {x: [1, 2]}", "s = \"q\"  # note",
+               "@decorated", "- not a list", "1. not numbered", "value = 't'", "a  b   c", "\u00e9 = '\u03bb'", "B{not markup}",
+               "*not* `markup`", "::", "<b>&amp;</b>", "    deeper", "        deepest", "end"]
+SRC_LINES = ["x = 1", "print('a  b')", "y = [1, 2]", "s = \"str\"", "z = len(s)  # comment", "d = {'k': 1}", "t = x < y & 1"]
+CONT_LINES = ["    + 2", "    .strip()"]
+WANT = ["1", "[1, 2]", "'str'", "a  b", "<obj>", "3.0", "x & y", "Traceback (most recent call last):", "ValueError: bad"]
+
+
+class DocGen:
+    """abstract documents"""
+
+    def __init__(self, rng):
+        self.rng = rng
+        self.nested_markup = False
+
+    def word(self):
+        r = self.rng.random()
+        if r < 0.72:
+            return ("w", self.rng.choice(BASE))
+        if r < 0.87:
+            return ("w", self.rng.choice(UNIVERSAL))
+        return ("sp", self.rng.randrange(1000))
+
+    def words(self, lo=1, hi=3):
+        return [self.word() for _ in range(self.rng.randint(lo, hi))]
+
+    def inline(self, depth=0):
+        r = self.rng.random()
+        if r < 0.55 or depth >= 2:
+            node = self.word()
+        elif r < 0.75:
+            kind = self.rng.choice(["bold", "italic", "code", "code", "math"])
+            kids = [self.inline(depth + 1) for _ in range(self.rng.randint(1, 3))]
+            if kind == "math":
+                kids = [("w", self.rng.choice(["x1", "y2", "k9"]))]
+            if depth > 0 or any(k[0] not in ("w", "sp") for k in kids):
+                self.nested_markup = True
+            node = ("m", kind, kids)
+        elif r < 0.84:
+            label = [self.inline(depth + 1) for _ in range(self.rng.randint(1, 2))] if self.rng.random() < 0.6 else None
+            node = ("link", label, self.rng.choice(XREFS))
+        elif r < 0.90:
+            label = self.words(1, 2) if self.rng.random() < 0.6 else None
+            node = ("url", label, self.rng.choice(URLS))
+        elif r < 0.95:
+            node = ("brace", self.rng.choice("{}"))
+        else:
+            node = ("sym",) + self.rng.choice(SYMBOLS)
+        if self.rng.random() < 0.25:
+            node = ("p", node, self.rng.choice(["(", "\"", ""]), self.rng.choice([".", ",", ";", "!", "?", ")", "\""]))
+        return node
+
+    def inlines(self, lo=2, hi=9, first_plain=True):
+        n = self.rng.randint(lo, hi)
+        res = [self.inline() for _ in range(n)]
+        if first_plain:
+            res[0] = ("w", self.rng.choice(BASE[:22]).capitalize())
+        return res
+
+    def para(self):
+        return ("para", self.inlines())
+
+    def lst(self, depth=0):
+        kind = self.rng.choice(["ulist", "olist"])
+        items = []
+        for _ in range(self.rng.randint(1, 3)):
+            blocks = [("para", self.inlines(1, 6))]
+            if any(i[0] not in ("w", "sp", "p") or (i[0] == "p" and i[1][0] not in ("w", "sp")) for i in blocks[0][1]):
+                self.nested_markup = True
+            if depth < 1 and self.rng.random() < 0.3:
+                blocks.append(self.lst(depth + 1))
+            elif self.rng.random() < 0.15:
+                blocks.append(("para", self.inlines(1, 5)))
+            items.append(blocks)
+        return (kind, items)
+
+    def block_lines(self, trailing_ws=False):
+        n = self.rng.randint(1, 5)
+        lines = [self.rng.choice(BLOCK_LINES) for _ in range(n)]
+        if n >= 3 and self.rng.random() < 0.4:
+            lines[self.rng.randrange(1, n - 1)] = ""
+        lines[0] = lines[0].lstrip() or "x"
+        lines[-1] = lines[-1] or "end"
+        if trailing_ws:
+            i = self.rng.randrange(n)
+            if lines[i]:
+                lines[i] += "  "
+        return lines
+
+    def literal(self):
+        intro = self.inlines(1, 4)
+        return ("literal", intro, self.block_lines(self.rng.random() < 0.25))
+
+    def doctest(self):
+        exs = []
+        for _ in range(self.rng.randint(1, 3)):
+            src = [self.rng.choice(SRC_LINES)]
+            if self.rng.random() < 0.25:
+                src.append(self.rng.choice(CONT_LINES))
+            want = [self.rng.choice(WANT) for _ in range(self.rng.randint(0, 2))]
+            exs.append((src, want))
+        tw = None
+        if self.rng.random() < 0.2 and exs[-1][1]:
+            tw = "last"          # trailing blanks on the last expected-output line of an example
+        elif self.rng.random() < 0.15 and len(exs[0][1]) > 1:
+            tw = "mid"           # ... on an expected-output line that is not the last of its example
+        return ("doctest", exs, tw)
+
+    def code(self):
+        lines = [l for l in self.block_lines() if l not in ("::",)]
+        while lines and not lines[0].strip():
+            lines.pop(0)
+        while lines and not lines[-1].strip():
+            lines.pop()
+        if lines:
+            lines[0] = lines[0].lstrip()
+        return ("code", lines or ["x = 1"])
+
+    def blocks(self, n, allow_section=True):
+        res = []
+        for _ in range(n):
+            r = self.rng.random()
+            if r < 0.42:
+                res.append(self.para())
+            elif r < 0.6:
+                res.append(self.lst())
+            elif r < 0.72:
+                res.append(self.literal())
+            elif r < 0.84:
+                res.append(self.doctest())
+            elif r < 0.92:
+                res.append(self.code())
+            elif allow_section:
+                res.append(("section", [("w", self.rng.choice(BASE).capitalize())] + self.words(0, 2),
+                            [self.para()] + self.blocks(self.rng.randint(0, 2), False)))
+            else:
+                res.append(self.para())
+        return res
+
+    def fields(self, owner):
+        res = []
+        n = self.rng.choice([0, 1, 2, 2, 3, 4, 6])
+        kinds_fn = ["param", "param", "keyword", "return", "yield", "raise", "warn", "var", "note", "see", "since", "author", "todo", "custom"]
+        kinds_cls = ["param", "ivar", "cvar", "ivar", "raise", "note", "see", "since", "author", "todo", "custom"]
+        kinds_mod = ["var", "var", "note", "see", "since", "author", "todo", "custom"]
+        pool = {"function": kinds_fn, "class": kinds_cls, "module": kinds_mod}[owner]
+        used_args, singles = set(), set()
+        for _ in range(n):
+            k = self.rng.choice(pool)
+            arg, typ = None, None
+            if k in ("return", "yield"):
+                if k in singles:
+                    continue
+                singles.add(k)
+                if self.rng.random() < 0.5:
+                    typ = self.rng.choice(["int", "str"])
+            elif k == "param":
+                cands = [a for a in ("a", "b") if ("p", a) not in used_args]
+                if not cands:
+                    continue
+                arg = self.rng.choice(cands)
+                used_args.add(("p", arg))
+                if self.rng.random() < 0.5:
+                    typ = self.rng.choice(["int", "str"])
+            elif k == "keyword":
+                arg = self.rng.choice(["opt", "flag"])
+                if ("k", arg) in used_args:
+                    continue
+                used_args.add(("k", arg))
+            elif k in ("raise", "warn"):
+                arg = self.rng.choice(["ValueError", "KeyError"] if k == "raise" else ["RuntimeWarning", "UserWarning"])
+            elif k in ("ivar", "cvar", "var"):
+                arg = self.rng.choice(["zz", "yy", "ww"])
+                if ("v", arg) in used_args:
+                    continue
+                used_args.add(("v", arg))
+                if self.rng.random() < 0.4:
+                    typ = self.rng.choice(["int", "str"])
+            body = self.inlines(1, 6)
+            if any(i[0] in ("m", "link", "url") for i in body):
+                self.nested_markup = True
+            res.append({"kind": k, "arg": arg, "type": typ, "body": body})
+        return res
+
+    def document(self):
+        owner = self.rng.choice(["function", "function", "class", "module"])
+        self.nested_markup = False
+        body = [self.para()] + self.blocks(self.rng.choice([0, 1, 1, 2, 3, 4]))
+        return {"owner": owner, "body": body, "fields": self.fields(owner)}
+
+
+# ====================================================================== documents: serialisers
+
+class Out:
+    """what the generator intends the reader to see"""
+
+    def __init__(self):
+        self.words: List[str] = []
+        self.blocks: List[Tuple[str, str]] = []
+        self.flags: set = set()
+
+
+class Ser:
+    def __init__(self, fmt: str):
+        self.fmt = fmt
+        self.ep = fmt == "epytext"
+        self.last: Optional[str] = None
+
+    # ---- inline: returns (source, visible)
+    def inl(self, node, in_markup: Optional[str] = None) -> Tuple[str, str]:
+        t = node[0]
+        if t == "w":
+            return node[1], node[1]
+        if t == "sp":
+            pool = SPECIAL[self.fmt]
+            w = pool[node[1] % len(pool)]
+            if in_markup and not self.ep:
+                w = "sp" + str(node[1] % 7)
+            return w, w
+        if t == "p":
+            s, v = self.inl(node[1], in_markup)
+            return node[2] + s + node[3], node[2] + v + node[3]
+        if t == "brace":
+            if self.ep:
+                return ("E{lb}" if node[1] == "{" else "E{rb}"), node[1]
+            return node[1], node[1]
+        if t == "sym":
+            if self.ep:
+                return "S{%s}" % node[1], node[2]
+            return node[2], node[2]
+        if t == "m":
+            kind, kids = node[1], node[2]
+            if self.ep:
+                parts = [self.inl(k, kind) for k in kids]
+                src = " ".join(p[0] for p in parts)
+                vis = " ".join(p[1] for p in parts)
+                return {"bold": "B", "italic": "I", "code": "C", "math": "M"}[kind] + "{" + src + "}", vis
+            # reST family: no nesting; the content is the visible text of the children
+            vis = " ".join(self.plain(k) for k in kids)
+            if in_markup:
+                return vis, vis
+            if kind == "bold":
+                return "**" + vis + "**", vis
+            if kind == "italic":
+                return "*" + vis + "*", vis
+            if kind == "math":
+                return ":math:`" + vis + "`", vis
+            return "``" + vis + "``", vis
+        if t == "link":
+            label, target = node[1], node[2]
+            if self.ep:
+                if label is None:
+                    return "L{%s}" % target, target
+                parts = [self.inl(k, "link") for k in label]
+                return "L{%s <%s>}" % (" ".join(p[0] for p in parts), target), " ".join(p[1] for p in parts)
+            if in_markup:
+                v = target if label is None else " ".join(self.plain(k) for k in label)
+                return v, v
+            if label is None:
+                return "`%s`" % target, target
+            vis = " ".join(self.plain(k) for k in label)
+            return "`%s <%s>`" % (vis, target), vis
+        if t == "url":
+            label, url = node[1], node[2]
+            if self.ep:
+                if label is None:
+                    return "U{%s}" % url, url
+                parts = [self.inl(k, "url") for k in label]
+                return "U{%s <%s>}" % (" ".join(p[0] for p in parts), url), " ".join(p[1] for p in parts)
+            if in_markup:
+                v = url if label is None else " ".join(self.plain(k) for k in label)
+                return v, v
+            if label is None:
+                return url, url
+            vis = " ".join(self.plain(k) for k in label)
+            return "`%s <%s>`__" % (vis, url), vis
+        raise AssertionError(node)
+
+    def plain(self, node) -> str:
+        """visible text of a node placed inside reST inline markup (which cannot nest): plain words only"""
+        t = node[0]
+        if t == "w":
+            return node[1] if re.fullmatch(r"[A-Za-z0-9]+", node[1]) else "w" + str(len(node[1]))
+        if t == "sp":
+            return "sp" + str(node[1] % 7)
+        if t == "p":
+            return self.plain(node[1])
+        if t in ("brace", "sym"):
+            return "q"
+        if t == "m":
+            return " ".join(self.plain(k) for k in node[2])
+        if t in ("link", "url"):
+            return "ref" if node[1] is None else " ".join(self.plain(k) for k in node[1])
+        raise AssertionError(node)
+
+    def wrap(self, inls, first_prefix: str, indent: str, out_words: List[str], width: int = 68, suffix: str = "",
+             no_colon: bool = False) -> List[str]:
+        """lay the chunks out on lines; a new line starts only before a chunk that cannot be taken for markup"""
+        chunks = [self.inl(n) for n in inls]
+        if no_colon:
+            # google / numpy field sections split on colons: chunks that carry one are written as plain words
+            chunks = [c if ":" not in c[0] else (self.plain(n), self.plain(n)) for c, n in zip(chunks, inls)]
+        if suffix:
+            chunks[-1] = (chunks[-1][0] + suffix, chunks[-1][1])
+        lines, cur = [], first_prefix
+        started = False
+        for src, vis in chunks:
+            out_words.extend(vis.split())
+            if started and len(cur) + 1 + len(src) > width and SAFE_START.match(src) and not src.endswith(":"):
+                lines.append(cur)
+                cur = indent + src
+            else:
+                cur = cur + (" " if started else "") + src
+            started = True
+        lines.append(cur)
+        return lines
+
+    # ---- blocks
+    def block(self, b, ind: int, out: Out, lines: List[str]) -> None:
+        pad = " " * ind
+        t = b[0]
+        nap = self.fmt in ("google", "numpy")
+        if self.ep and t in ("ulist", "olist") and self.last == "literal":
+            # in epytext an indented list directly after a literal block would continue the literal block
+            self.block(("para", [("w", "Then")]), ind, out, lines)
+        if t != "section":
+            self.last = "literal" if (t == "literal" or (t == "code" and self.ep)) else t
+        if t == "para":
+            lines.extend(self.wrap(b[1], pad, pad, out.words))
+            lines.append("")
+        elif t in ("ulist", "olist"):
+            li = ind + 2 if self.ep else ind
+            for n, item in enumerate(b[1]):
+                bullet = "- " if t == "ulist" else "%d. " % (n + 1)
+                cind = li + len(bullet)
+                first = item[0]
+                lines.extend(self.wrap(first[1], " " * li + bullet, " " * cind, out.words))
+                if not self.ep or len(item) > 1:
+                    lines.append("")
+                for sub in item[1:]:
+                    self.block(sub, cind, out, lines)
+            if lines and lines[-1] != "":
+                lines.append("")
+            out.flags.add("list")
+        elif t == "literal":
+            intro = list(b[1])
+            w: List[str] = []
+            src_lines = self.wrap(intro[:-1] + [("w", "shown")], pad, pad, w, suffix="::")
+            out.words.extend(w[:-1] + ["shown:"])
+            lines.extend(src_lines)
+            lines.append("")
+            body = [l.rstrip() if not self.ep else l for l in b[2]]
+            for l in body:
+                lines.append((" " * (ind + 4) + l) if l else "")
+            lines.append("")
+            text = "\n".join(body)
+            out.blocks.append(("literal", text))
+            out.words.extend(text.split())
+            out.flags.add("literal")
+            if self.ep and any(l != l.rstrip() for l in body):
+                out.flags.add("literal-trailing-ws")
+        elif t == "doctest":
+            exs, tw = b[1], b[2]
+            body = []
+            for i, (src, want) in enumerate(exs):
+                body.append(">>> " + src[0])
+                for c in src[1:]:
+                    body.append("... " + c)
+                for j, wl in enumerate(want):
+                    if self.ep and ((tw == "last" and i == len(exs) - 1 and j == len(want) - 1) or (tw == "mid" and i == 0 and j == 0)):
+                        wl = wl + "  "
+                        out.flags.add("doctest-want-trailing-ws:" + tw)
+                    body.append(wl)
+            for l in body:
+                lines.append(pad + l)
+            lines.append("")
+            text = "\n".join(body)
+            out.blocks.append(("doctest", text))
+            out.words.extend(text.split())
+            out.flags.add("doctest")
+        elif t == "code":
+            if self.ep:
+                return self.block(("literal", [("w", "Code")], b[1]), ind, out, lines)
+            body = [l.rstrip() for l in b[1]]
+            lines.append(pad + ".. python::")
+            lines.append("")
+            for l in body:
+                lines.append((" " * (ind + 4) + l) if l else "")
+            lines.append("")
+            text = "\n".join(body)
+            out.blocks.append(("code", text))
+            out.words.extend(text.split())
+            out.flags.add("code")
+        elif t == "section":
+            if nap:
+                for sub in b[2]:
+                    self.block(sub, ind, out, lines)
+                return
+            w2: List[str] = []
+            title = self.wrap(b[1], pad, pad, w2, width=200)
+            out.words.extend(w2)
+            lines.append(title[0])
+            lines.append(pad + "=" * len(title[0].strip()))
+            lines.append("")
+            for sub in b[2]:
+                self.block(sub, ind, out, lines)
+            out.flags.add("section")
+        else:
+            raise AssertionError(b)
+
+    # ---- fields
+    TAGS = {"return": "return", "yield": "yield", "raise": "raise", "warn": "warn", "see": "see", "custom": "customfield"}
+
+    def fields(self, fields, owner: str, lines: List[str]) -> List[Dict[str, Any]]:
+        exp: List[Dict[str, Any]] = []
+        if self.fmt == "plaintext" or not fields:
+            return exp
+        if self.fmt in ("epytext", "restructuredtext"):
+            def mk(tag, arg):
+                head = tag + (" " + arg if arg else "")
+                return ("@%s: " % head) if self.ep else (":%s: " % head)
+            for f in fields:
+                tag = self.TAGS.get(f["kind"], f["kind"])
+                w: List[str] = []
+                lines.extend(self.wrap(f["body"], mk(tag, f["arg"]), "    ", w))
+                e = dict(kind=f["kind"], tag=tag, arg=f["arg"], words=w, type=None)
+                if f["type"]:
+                    ttag = {"return": "rtype", "yield": "ytype"}.get(f["kind"], "type")
+                    lines.append(mk(ttag, f["arg"] if ttag == "type" else None) + f["type"])
+                    e["type"] = f["type"]
+                exp.append(e)
+            return exp
+        # google / numpy: fields are grouped into sections
+        groups = [("param", "Args", "Parameters"), ("keyword", "Keyword Args", "Other Parameters"), ("return", "Returns", "Returns"),
+                  ("yield", "Yields", "Yields"), ("raise", "Raises", "Raises"), ("warn", "Warns", "Warns"),
+                  ("ivar", "Attributes", "Attributes"), ("cvar", "Attributes", "Attributes"), ("var", "Attributes", "Attributes"),
+                  ("note", "Note", "Notes"), ("todo", "Todo", "Todo")]
+        done = set()
+        g = self.fmt == "google"
+        for kind, gname, nname in groups:
+            name = gname if g else nname
+            if name in done:
+                continue
+            kinds = [k for k, a, b2 in groups if (a if g else b2) == name]
+            fs = [f for f in fields if f["kind"] in kinds]
+            if not fs:
+                continue
+            done.add(name)
+            if kind in ("note", "todo", "return", "yield"):
+                fs = fs[:1]
+            lines.append(name + ":" if g else name)
+            if not g:
+                lines.append("-" * len(name))
+            for f in fs:
+                w = []
+                e = dict(kind=f["kind"], tag=f["kind"], arg=f["arg"], words=w, type=f["type"], section=name)
+                if kind in ("note", "todo"):
+                    lines.extend(self.wrap(f["body"], "    " if g else "", "    " if g else "", w, no_colon=True))
+                elif kind in ("return", "yield"):
+                    if g:
+                        lines.extend(self.wrap(f["body"], "    " + (f["type"] + ": " if f["type"] else ""), "        ", w, no_colon=True))
+                    else:
+                        lines.append(f["type"] or "object")
+                        e["type"] = f["type"] or "object"
+                        lines.extend(self.wrap(f["body"], "    ", "    ", w, no_colon=True))
+                else:
+                    if g:
+                        head = "    " + f["arg"] + (" (%s)" % f["type"] if f["type"] else "") + ": "
+                        lines.extend(self.wrap(f["body"], head, "        ", w, no_colon=True))
+                    else:
+                        if kind in ("raise", "warn"):
+                            lines.append(f["arg"])
+                            e["type"] = None
+                        else:
+                            lines.append(f["arg"] + (" : " + f["type"] if f["type"] else ""))
+                        lines.extend(self.wrap(f["body"], "    ", "    ", w, no_colon=True))
+                if kind in ("raise", "warn"):
+                    e["type"] = None
+                exp.append(e)
+            lines.append("")
+        return exp
+
+    def document(self, doc) -> Dict[str, Any]:
+        out = Out()
+        lines: List[str] = []
+        if self.fmt == "plaintext":
+            # any text: chunks with arbitrary characters, kept exactly
+            for n, b in enumerate(doc["body"]):
+                w: List[str] = []
+                if b[0] == "para":
+                    lines.extend(self.wrap(b[1], "", "  " if n % 3 == 0 else "", w, width=40))
+                    lines.append("")
+                elif b[0] in ("literal", "code"):
+                    lines.extend(("    " + l) if l else "" for l in b[2 if b[0] == "literal" else 1])
+                    lines.append("")
+            while lines and lines[-1] == "":
+                lines.pop()
+            return {"docstring": "\n".join(lines), "out": out, "fields": []}
+        for b in doc["body"]:
+            self.block(b, 0, out, lines)
+        fexp = self.fields(doc["fields"], doc["owner"], lines)
+        while lines and lines[-1] == "":
+            lines.pop()
+        return {"docstring": "\n".join(lines), "out": out, "fields": fexp}
+
+
+def module_source(owner: str, docstring: str) -> Tuple[str, str]:
+    """python source of module `m` carrying the docstring on the chosen owner; returns (source, owner full name)"""
+    def lit(ind):
+        body = "\n".join((" " * ind + l) if l else "" for l in docstring.split("\n"))
+        assert '"""' not in docstring
+        esc = body.replace("\\", "\\\\")
+        return " " * ind + '"""\n' + esc + "\n" + " " * ind + '"""\n'
+    other = "def f(a, b=1, *args, **kw):\n    pass\nclass K:\n    def __init__(self, a, b=2):\n        pass\n    def meth(self):\n        pass\nx = 1\n"
+    if owner == "module":
+        return lit(0) + other, "m"
+    if owner == "function":
+        return "class K:\n    def __init__(self, a, b=2):\n        pass\n    def meth(self):\n        pass\nx = 1\ndef f(a, b=1, *args, **kw):\n" + lit(4) + "    pass\n", "m.f"
+    return "def f(a, b=1, *args, **kw):\n    pass\nx = 1\nclass K:\n" + lit(4) + "    def __init__(self, a, b=2):\n        pass\n    def meth(self):\n        pass\n", "m.K"
+
+
+# ====================================================================== documents: rendering and the direct oracle
+
+class Node:
+    __slots__ = ("tag", "attrs", "kids")
+
+    def __init__(self, tag, attrs):
+        self.tag, self.attrs, self.kids = tag, attrs, []
+
+    def cls(self) -> str:
+        return self.attrs.get("class") or ""
+
+
+class _Dom(html.parser.HTMLParser):
+    VOID = {"br", "wbr", "hr", "img"}
+
+    def __init__(self):
+        super().__init__(convert_charrefs=True)
+        self.root = Node("#root", {})
+        self.stack = [self.root]
+
+    def handle_starttag(self, tag, attrs):
+        n = Node(tag, dict(attrs))
+        self.stack[-1].kids.append(n)
+        if tag not in self.VOID:
+            self.stack.append(n)
+
+    def handle_startendtag(self, tag, attrs):
+        self.stack[-1].kids.append(Node(tag, dict(attrs)))
+
+    def handle_endtag(self, tag):
+        for i in range(len(self.stack) - 1, 0, -1):
+            if self.stack[i].tag == tag:
+                del self.stack[i:]
+                break
+
+    def handle_data(self, data):
+        self.stack[-1].kids.append(data)
+
+
+BLOCKISH = {"p", "li", "tr", "td", "div", "h1", "h2", "h3", "h4", "h5", "h6", "dt", "dd", "pre", "ul", "ol", "table", "blockquote", "dl"}
+
+
+def dom(h: str) -> Node:
+    p = _Dom()
+    p.feed(h)
+    p.close()
+    return p.root
+
+
+def text_of(n, skip=lambda n: False, sep: bool = True) -> str:
+    if isinstance(n, str):
+        return n
+    if skip(n):
+        return " "
+    inner = "".join(text_of(k, skip, sep) for k in n.kids)
+    return (" " + inner + " ") if (sep and n.tag in BLOCKISH) else inner
+
+
+def find_all(n, pred, out=None, stop=lambda n: False):
+    out = [] if out is None else out
+    if isinstance(n, str):
+        return out
+    if pred(n):
+        out.append(n)
+    if not stop(n):
+        for k in n.kids:
+            find_all(k, pred, out, stop)
+    return out
+
+
+def norm_pre(text: str, dedent: bool) -> str:
+    """the text of a <pre> as a reader sees it: HTML drops a newline directly after <pre>; trailing newlines
+    show nothing.  `dedent`: remove the indentation common to all non-blank lines (epytext literal blocks keep
+    their indentation relative to the paragraph)."""
+    t = text.strip("\n")
+    if dedent:
+        ls = t.split("\n")
+        m = min((len(l) - len(l.lstrip(" ")) for l in ls if l.strip(" ")), default=0)
+        t = "\n".join(l[m:] if l.strip(" ") else l for l in ls)
+    return t
+
+
+def render_doc(src: str, fmt: str, full: str) -> Dict[str, Any]:
+    """build a real System from the source, render the owner's docstring (and its attributes') with the real code"""
+    from pydoctor import model, epydoc2stan
+    from pydoctor.stanutils import flatten
+    buf = io.StringIO()
+    res: Dict[str, Any] = {"attrs": {}}
+    with contextlib.redirect_stdout(buf):
+        system = model.System()
+        system.options.docformat = fmt
+        b = system.systemBuilder(system)
+        b.addModuleString(src, modname="m")
+        b.buildModules()
+        obj = system.allobjects[full]
+        res["docstring"] = obj.docstring
+        res["html"] = flatten(epydoc2stan.format_docstring(obj))
+        for name, sub in obj.contents.items():
+            if isinstance(sub, model.Attribute) and name in ("zz", "yy", "ww", "a", "b"):
+                t = epydoc2stan.type2stan(sub)
+                res["attrs"][name] = {"visible": bool(sub.isVisible), "kind": str(sub.kind),
+                                      "html": flatten(epydoc2stan.format_docstring(sub)),
+                                      "type": flatten(t) if t is not None else None}
+    res["reports"] = [l for l in buf.getvalue().split("\n") if l.strip()]
+    return res
+
+
+HEADINGS = {"param": ["Parameters"], "keyword": ["Parameters"], "return": ["Returns"], "yield": ["Yields"], "raise": ["Raises"],
+            "warn": ["Warns"], "note": ["Note", "Notes"], "see": ["See Also"], "since": ["Present Since"],
+            "author": ["Author", "Authors"], "todo": ["Unknown Field: todo"], "custom": ["Unknown Field: customfield"]}
+ADMONITIONS = {"note": ["Note", "Notes"], "todo": ["Todo"], "see": ["See Also"]}
+
+
+def field_table(root: Node) -> Dict[str, List[List[str]]]:
+    """heading -> rows (each row = list of cell texts) of the table FieldHandler.format() produces"""
+    res: Dict[str, List[List[str]]] = {}
+    for table in find_all(root, lambda n: n.tag == "table" and "fieldTable" in n.cls()):
+        cur = None
+        for tr in find_all(table, lambda n: n.tag == "tr"):
+            cells = [" ".join(text_of(td).split()) for td in tr.kids if not isinstance(td, str) and td.tag == "td"]
+            if "fieldStart" in tr.cls():
+                cur = cells[0] if cells else ""
+                res.setdefault(cur, [])
+            elif cur is not None:
+                res[cur].append(cells)
+    return res
+
+
+def in_admonition(kind, words, adm) -> bool:
+    return any(ws == words for t in ADMONITIONS.get(kind, []) for ws in adm.get(t, []))
+
+
+def oracle_document(ctx: Ctx, fmt: str, doc, ser, full: str, src: str, r) -> None:
+    inp = {"docformat": fmt, "owner": full, "source": src}
+    out: Out = ser["out"]
+    root = dom(r["html"])
+    if fmt == "plaintext":
+        shown = text_of(root, sep=False)
+        import ast
+        want = inspect.cleandoc(next(ast.get_docstring(n, clean=False) for n in ast.walk(ast.parse(src))
+                                     if isinstance(n, (ast.Module, ast.ClassDef, ast.FunctionDef)) and ast.get_docstring(n, clean=False)))
+        if shown != want:
+            ctx.fail("plaintext:not-reproduced-exactly", {**inp, "shown": shown}, "plaintext docstring is not reproduced exactly")
+        return
+    fallback = find_all(root, lambda n: n.tag == "p" and n.cls() == "pre")
+    bad = [l for l in r["reports"] if "bad docstring" in l]
+    if fallback or bad:
+        why = (bad[0].split("bad docstring:")[-1].strip()[:60] if bad else "?")
+        code_spaces = re.search(r"C\{[^{}]*  [^{}]*\}|``[^`]*  [^`]*``", ser["docstring"])
+        if "undefined entity" in why and code_spaces:
+            sig = "inline-code:multiple-spaces:docstring-falls-back-to-plaintext"
+        else:
+            sig = "wellformed-docstring-rejected:" + fmt + ":" + re.sub(r"[^A-Za-z ]", "", why.split("\n")[0])[:40].strip().replace(" ", "-")
+        ctx.fail(sig, {**inp, "reports": r["reports"][:4]}, f"{fmt}: a well-formed docstring is reported as bad and shown as plain text: {why}")
+        return
+    is_field = lambda n: (n.tag == "table" and "fieldTable" in n.cls()) or (n.tag == "div" and "admonition" in n.cls())
+    # 1. the description: same words, same order
+    shown_words = text_of(root, skip=is_field).split()
+    if shown_words != out.words:
+        i = next((k for k, (a, b) in enumerate(zip(shown_words, out.words)) if a != b), min(len(shown_words), len(out.words)))
+        kind = "lost" if len(shown_words) < len(out.words) else ("added" if len(shown_words) > len(out.words) else "altered")
+        ctx.fail(f"description:words-{kind}:{fmt}", {**inp, "at": i, "shown": shown_words[max(0, i - 3):i + 4], "intended": out.words[max(0, i - 3):i + 4]},
+                 f"{fmt}: description words differ at word {i}: shown {shown_words[max(0, i - 2):i + 3]} intended {out.words[max(0, i - 2):i + 3]}")
+    # 2. blocks, character for character
+    pres = find_all(root, lambda n: n.tag == "pre", stop=is_field)
+    got = [norm_pre(text_of(p, sep=False), dedent=(fmt == "epytext" and "literal" in p.cls())) for p in pres]
+    if len(got) != len(out.blocks):
+        ctx.fail(f"blocks:count:{fmt}", {**inp, "shown": got, "intended": out.blocks}, f"{fmt}: {len(out.blocks)} blocks written, {len(got)} shown")
+    else:
+        for (kind, want), g in zip(out.blocks, got):
+            if g != want:
+                same_but_ws = [l.rstrip() for l in g.split("\n")] == [l.rstrip() for l in want.split("\n")]
+                if kind == "doctest" and same_but_ws and "doctest-want-trailing-ws:last" in out.flags:
+                    sig = "doctest:want-trailing-whitespace-dropped"
+                elif same_but_ws:
+                    sig = f"block:{kind}:trailing-whitespace:{fmt}"
+                else:
+                    sig = f"block:{kind}:text-changed:{fmt}"
+                ctx.fail(sig, {**inp, "shown": g, "intended": want}, f"{fmt}: {kind} block is not reproduced character for character")
+    # 3. fields
+    table = field_table(root)
+    adm: Dict[str, List[List[str]]] = {}
+    for d in find_all(root, lambda n: n.tag == "div" and "admonition" in n.cls()):
+        title = find_all(d, lambda n: n.tag == "p" and "admonition-title" in n.cls())
+        t = " ".join(text_of(title[0]).split()) if title else ""
+        adm.setdefault(t, []).append(text_of(d, skip=lambda n: n in title).split())
+    owner_kind = doc["owner"]
+    for f in ser["fields"]:
+        k, arg, words = f["kind"], f["arg"], f["words"]
+        where = None
+        if k in ("ivar", "cvar", "var"):
+            a = r["attrs"].get(arg)
+            if a and a["visible"] and text_of(dom(a["html"])).split() == words:
+                where = "attribute"
+                if f["type"] and (a["type"] is None or text_of(dom(a["type"])).split() != [f["type"]]):
+                    ctx.fail(f"field:type-of-variable-not-shown:{fmt}", {**inp, "field": [k, arg]}, "type of a documented variable is not shown")
+        else:
+            for h in HEADINGS.get(k, []):
+                for row in table.get(h, []):
+                    desc = row[-1].split()
+                    name = row[0] if len(row) > 1 else ""
+                    if desc != words:
+                        continue
+                    if arg and not (name.split(":")[0].lstrip("*") == arg or name == arg):
+                        continue
+                    where = "table:" + h
+                    if f["type"] and k in ("param", "return", "yield"):
+                        shown_type = name.split(":", 1)[1].strip() if (arg and ":" in name) else ("" if arg else name)
+                        if shown_type != f["type"]:
+                            if owner_kind == "class" and k == "param":
+                                ctx.fail("field:type-of-constructor-parameter-in-class-docstring-hidden",
+                                         {**inp, "field": [k, arg, f["type"]], "attr": r["attrs"].get(arg)},
+                                         f"{fmt}: the type given for constructor parameter '{arg}' in the class docstring is shown nowhere and not reported")
+                            else:
+                                ctx.fail(f"field:type-not-shown:{k}:{fmt}", {**inp, "field": [k, arg, f["type"]], "cell": name}, "the field's type is not shown in its entry")
+                    break
+                if where:
+                    break
+            if where is None and in_admonition(k, words, adm):
+                where = "admonition"
+        if where is None:
+            rep = [l for l in r["reports"] if (arg and re.search(r"\b%s\b" % re.escape(arg), l)) or re.search(r"\b%s\b" % re.escape(f["tag"]), l)]
+            if rep:
+                where = "reported"
+        ctx.count("field:%s:%s:%s" % (k, owner_kind, (where or "DROPPED").split(":")[0]))
+        if where is None:
+            kk = "var" if k in ("ivar", "cvar", "var") else k
+            ctx.fail(f"field:{kk}-in-{owner_kind}-silently-dropped", {**inp, "field": [k, arg, words], "reports": r["reports"][:5]},
+                     f"{fmt}: field {f['tag']} {arg or ''} of a {owner_kind} docstring is neither displayed under its entry nor reported")
+
+
+# ====================================================================== field-handler table: probing the real handlers
+
+PROBE = "probetext"
+HEAD_NORM = {"Notes": "Note", "Authors": "Author"}
+
+
+def probe_source(tag: str, kind: str, has_arg: bool, exists: bool, known: bool) -> Tuple[str, str, str]:
+    """epytext docstring with one field `@tag [arg]: probetext` on an object of the given kind"""
+    arg = ("a" if exists else "nope") if has_arg else ""
+    field = "@%s%s: %s" % (tag, (" " + arg) if arg else "", PROBE)
+    extra = ("\n@ivar %s: companion" % arg) if (known and arg) else ""
+    doc = '"""\nDoc.\n\n%s%s\n"""\n' % (field, extra)
+    ind = lambda t: "".join("    " + l + "\n" for l in t.splitlines())
+    if kind == "module":
+        return doc + "def f(a):\n    pass\n", "m", arg
+    if kind == "class":
+        return "class K:\n" + ind(doc) + "    def __init__(self, a):\n        pass\n", "m.K", arg
+    if kind == "function":
+        return "def f(a):\n" + ind(doc) + "    pass\n", "m.f", arg
+    return "x = 1\n" + doc, "m.x", arg
+
+
+def impl_field(tag: str, kind: str, has_arg: bool, exists: bool, known: bool) -> str:
+    from pydoctor import model, epydoc2stan
+    from pydoctor.stanutils import flatten
+    src, full, arg = probe_source(tag, kind, has_arg, exists, known)
+    buf = io.StringIO()
+    with contextlib.redirect_stdout(buf):
+        system = model.System()
+        system.options.docformat = "epytext"
+        b = system.systemBuilder(system)
+        b.addModuleString(src, modname="m")
+        b.buildModules()
+        obj = system.allobjects[full]
+        h = flatten(epydoc2stan.format_docstring(obj))
+        heading = "-"
+        for hd, rows in field_table(dom(h)).items():
+            if any(PROBE in " ".join(r) for r in rows):
+                heading = "Unknown_Field" if hd.startswith("Unknown Field") else HEAD_NORM.get(hd, hd).replace(" ", "_")
+        attr = "0"
+        holder = obj if kind == "attribute" else (obj.contents.get(arg) if arg and hasattr(obj, "contents") else None)
+        if holder is not None and isinstance(holder, model.Attribute):
+            texts = []
+            if kind != "attribute" and holder.parsed_docstring is not None:
+                texts.append(flatten(epydoc2stan.format_docstring(holder)))
+            t = epydoc2stan.type2stan(holder)
+            if t is not None:
+                texts.append(flatten(t))
+            if any(PROBE in t for t in texts):
+                attr = "shown" if holder.kind is not None and holder.isVisible else "hidden"
+    reported = any(l.strip() for l in buf.getvalue().split("\n") if "companion" not in l)
+    return "heading=%s attr=%s reported=%d modelled=1" % (heading, attr, reported)
+
+
+def stream_fields(ctx: Ctx) -> None:
+    from .. import tables
+    handlers = tables.field_handlers() + [("customfield", "handleUnknownField")]
+    reqs, impls, pay = [], [], []
+    for tag, fn in handlers:
+        for kind in ("module", "class", "function", "attribute"):
+            for has_arg in (False, True):
+                for exists in (False, True):
+                    for known in (False, True):
+                        if (not has_arg and (exists or known)) or (known and kind not in ("module", "class")):
+                            continue
+                        if known and (exists or tag != "type"):
+                            continue            # the companion `@ivar` field only makes sense next to `@type`
+                        reqs.append("epytext field %s %s %s %d %d %d" % (tag, fn, kind, has_arg, exists, known))
+                        out = impl_field(tag, kind, has_arg, exists, known)
+                        impls.append(out)
+                        pay.append({"tag": tag, "handler": fn, "kind": kind, "has_arg": has_arg, "param_exists": exists, "attr_known": known})
+                        ctx.count("fields-table:" + ("kept" if ("heading=-" not in out or "attr=shown" in out or "reported=1" in out) else "DROPPED"))
+    ctx.compare("FieldHandler/extract_fields~Fields.outcome", reqs, impls, pay)
+    ctx.count("stream:fields-table", len(reqs))
+
+
+def stream_documents(ctx: Ctx) -> None:
+    n = 260 if ctx.quick else 5000
+    gen = DocGen(ctx.rng)
+    for i in range(n):
+        doc = gen.document()
+        nested = gen.nested_markup
+        for fmt in FORMATS:
+            ser = Ser(fmt).document(doc)
+            src, full = module_source(doc["owner"], ser["docstring"])
+            inp = {"docformat": fmt, "owner": full, "source": src}
+            try:
+                r = render_doc(src, fmt, full)
+            except Exception as e:
+                ctx.fail("render-raises:" + type(e).__name__, inp, f"{fmt}: building or rendering raises {type(e).__name__}: {str(e)[:80]}")
+                continue
+            out: Out = ser["out"]
+            nontriv = fmt != "plaintext" and ((nested and fmt == "epytext") or bool(out.blocks) or len(ser["fields"]) >= 2 or
+                                              (nested and "list" in out.flags))
+            ctx.case("doc:%s:%s" % (fmt, src), nontriv,
+                     {"stream": "documents", "docformat": fmt, "owner": full, "docstring": ser["docstring"][:400]}
+                     if nontriv and fmt == FORMATS[i % 4] and len(ctx.samples) < 6 and i % 7 == 0 else None)
+            ctx.count("doc:" + fmt)
+            ctx.count("doc-owner:" + doc["owner"])
+            for fl in sorted(out.flags):
+                ctx.count("doc-has:%s:%s" % (fl.split(":")[0], fmt))
+            ctx.count("doc-fields:%d" % min(len(ser["fields"]), 5))
+            oracle_document(ctx, fmt, doc, ser, full, src, r)
+
+
 def run(ctx: Ctx) -> None:
     stream_tables(ctx)
     stream_target(ctx)
@@ -520,6 +1398,8 @@ def run(ctx: Ctx) -> None:
     stream_blocks(ctx)
     stream_splice(ctx)
     stream_plaintext(ctx)
+    stream_fields(ctx)
+    stream_documents(ctx)
 
 
 def replay(ctx: Ctx, obj) -> int:
